@@ -150,6 +150,7 @@ func verifSameBytes(a, b []byte) bool {
 // code configuration and retry budget, and checks the statement on the
 // attempts seen by the transport.
 func verifSend(withBody, withRetry, allConfigs bool) {
+	verif.Option("panic_is_violation", 1) // a panic must never end a path silently
 	wire := &verifWire{}
 	rawurl := "http://origin:80/x/y?z=1"
 	var tr http.RoundTripper = &verifTransport{wire}
@@ -159,7 +160,13 @@ func verifSend(withBody, withRetry, allConfigs bool) {
 		rawurl = srv.URL + "/x/y?z=1"
 		tr = &verifNativeRT{wire, &http.Transport{DisableKeepAlives: true}}
 	}
-	method := []string{"POST", "GET", "PUT", "PATCH", "DELETE", "HEAD"}[verif.Choice("method", verif.Bound("methods", 1, 6))]
+	nmethods := verif.Bound("methods", 1, 6)
+	maxRetries := verif.Bound("max_retries", 2, 3)
+	if withBody && withRetry { // the largest product: keep its thorough tier affordable
+		nmethods = verif.Bound("methods_with_body_and_retries", 1, 2)
+		maxRetries = verif.Bound("max_retries_with_body", 2, 2)
+	}
+	method := []string{"POST", "GET", "PUT", "PATCH", "DELETE", "HEAD"}[verif.Choice("method", nmethods)]
 	hdr := verif.String("header", 2)
 	for i := 0; i < len(hdr); i++ { // visible ASCII: a legal header value
 		verif.Assume(verif.And(hdr[i] > 0x20, hdr[i] < 0x7f))
@@ -199,7 +206,7 @@ func verifSend(withBody, withRetry, allConfigs bool) {
 	}
 	budget := 0
 	if withRetry {
-		budget = verif.Len("retries", 0, verif.Bound("max_retries", 2, 3))
+		budget = verif.Len("retries", 0, maxRetries)
 		// (WithMaxRetries(b, 0) means "unlimited": a zero budget is a StopBackOff)
 		ropts := []RetryOption{RetryBackoff(&backoff.StopBackOff{})}
 		if budget > 0 {
